@@ -185,8 +185,8 @@ class NetSim:
                     self.jobs[self.turn]["n"] = self.jobs[self.turn]["n"](self)      # node chosen from the state reached
                 if self.turn < len(self.jobs) and self.jobs[self.turn]["n"] == name and self._quiescent(name):
                     job = self.jobs[self.turn]
-                    if self.lazy_drain:      # everything the previous job delivered is read now, at quiescence
-                        for nm in self.objs:
+                    if self.lazy_drain and not job.get("hold"):   # everything the previous job delivered is read now, at quiescence
+                        for nm in self.objs:   # ("hold": the applications have not read yet when this job starts)
                             self.drain(nm, force=True)
                     me.deadline = s.now + job.get("budget_ms", 4000) * 1_000_000
                     try:
@@ -268,6 +268,13 @@ class NetSim:
                 cur["pkts"].append(e)
             else:
                 cur["bad"].append(dict(k=e["k"], n=e.get("n", ""), what=str(e.get("exc", e.get("job", "")))))
+        for i in range(1, len(wins)):
+            # a "hold" job started before the applications read what the previous job delivered: those frames are dequeued
+            # in this window but belong to the previous call
+            if wins[i]["call"].get("hold") and wins[i]["call"]["msg"] != wins[i - 1]["call"]["msg"]:
+                mine = [d for d in wins[i]["deqs"] if d["msg"] != wins[i - 1]["call"]["msg"] or d["msg"] == wins[i]["call"]["msg"]]
+                wins[i - 1]["deqs"] += [d for d in wins[i]["deqs"] if d not in mine]
+                wins[i]["deqs"] = mine
         return dict(nodes=nodes, prefix=PREFIX, suffix=SUFFIX, projs=self.projs, wins=wins,
                     mesh=[e for e in ev if e["k"] == "mesh"], crashes=[e for e in ev if e["k"] in ("crash", "hang")])
 
@@ -306,7 +313,7 @@ def job_multicast(src_name, msg, mtype, level, **kw):
         t0 = ns.s.now
         ns.ev.append(dict(k="call", n=name, api="multicast", level=-1 if level is None else level, type=mtype, msg=list(msg),
                           t=t0 // 1000, job=ns.turn, src=o.node_address, to=64, id=0, chk=list(job.get("chk", ["C07"])),
-                          lvl=o.multicast_level, tx_timeout=o.tx_timeout, route_timeout=o.route_timeout))
+                          hold=bool(job.get("hold")), lvl=o.multicast_level, tx_timeout=o.tx_timeout, route_timeout=o.route_timeout))
         exc, r = "none", False
         try:
             r = o.multicast(msg, mtype, level)
